@@ -152,8 +152,12 @@ func Record(test string, js []byte, r *Result) {
 	defer st.mu.Unlock()
 	st.evals++
 	st.tests[test]++
-	for _, l := range r.Labels {
-		st.classes[l]++
+	seen := map[string]bool{}
+	for _, l := range r.Labels { // a case counts once per class
+		if !seen[l] {
+			seen[l] = true
+			st.classes[l]++
+		}
 	}
 	for _, h := range r.Hit {
 		st.excluded[h]++
